@@ -126,8 +126,11 @@ func (r *logLevels) shift(l ...any) *logLevels {
 			ll = tv
 			ok = true
 		case int:
-			ll = LogLevel(tv)
-			ok = true
+			// only what fits the level set
+			if 0 <= tv && tv <= int(^uint16(0)) {
+				ll = LogLevel(tv)
+				ok = true
+			}
 		}
 
 		if !ok {
@@ -192,8 +195,11 @@ func (r *logLevels) unshift(l ...any) *logLevels {
 			ll = tv
 			ok = true
 		case int:
-			ll = LogLevel(tv)
-			ok = true
+			// only what fits the level set
+			if 0 <= tv && tv <= int(^uint16(0)) {
+				ll = LogLevel(tv)
+				ok = true
+			}
 		}
 
 		if logLevels(ll) == logLevels(0) {
